@@ -207,9 +207,15 @@ def Mon.frame (m : Mon) (f : Frame) : Mon × Option String :=
           if sq.allowedVal.contains v then (m.setPair f.r f.lane p', none)
           else (m.setPair f.r f.lane p', some "value-snapshot-inconsistent")
       else if f.lane = 1 then
-        if m.keys.all (fun k => ((alGet sq.allowed k).getD [none]).contains (alGet p.replica k)) then
-          (m.setPair f.r f.lane p', none)
-        else (m.setPair f.r f.lane p', some "map-snapshot-inconsistent")
+        let bad := m.keys.filter (fun k => !((alGet sq.allowed k).getD [none]).contains (alGet p.replica k))
+        if bad.isEmpty then (m.setPair f.r f.lane p', none)
+        else
+          -- a remote that linked implicitly by this very sync: keys that changed after the request are the known
+          -- loss (the live update was broadcast before the link existed)
+          let changedSince (k : Nat) : Bool := ((alGet sq.allowed k).getD [none]).length > 1
+          if p.implicitT0 == some sq.t0 && bad.all changedSince then
+            (m.setPair f.r f.lane p', some "map-update-lost-during-implicit-link-sync")
+          else (m.setPair f.r f.lane p', some "map-snapshot-inconsistent")
       else (m.setPair f.r f.lane p', none)
   | .val v =>
     if !p.isOpen then (m, some "event-outside-link") else
